@@ -617,8 +617,7 @@ class World:
         if not len(m.reactions):
             return "skipped:empty"
         name = f"ucon{op['name']}"
-        if name in m.constraints:
-            return "skipped:exists"
+        # a name that is already taken is attempted too: the call must raise and leave the problem usable
         rx = list(dict.fromkeys(self.pick(m.reactions, k) for k in op["rxns"]))
         coefs, expr = [], 0
         for r, c in zip(rx, op["coefs"]):
@@ -631,8 +630,6 @@ class World:
     def op_add_var(self, op):
         m = self.model
         name = f"uvar{op['name']}"
-        if name in m.variables:
-            return "skipped:exists"
         lb, ub = op["b"]
         kind = op["kind"]
         if kind == "binary":
